@@ -62,7 +62,9 @@ def utc_midnight(now): return now - now % 86400
 
 async def call_op(api, kind, a):
     """a = the operation's python-level arguments (JSON-able)"""
-    if kind == 1: return await api.control_device(Command.ON if a[0] else Command.OFF, a[1])
+    if kind == 1:
+        if a[1] % 3 == 1: return await api.control_device(minutes=a[1], command=Command.ON if a[0] else Command.OFF)
+        return await api.control_device(Command.ON if a[0] else Command.OFF, a[1])
     if kind == 2: return await api.set_auto_shutdown(D.timedelta(seconds=a[0], microseconds=a[1]))
     if kind == 3: return await api.set_device_name(a[0])
     if kind == 4: return await api.get_schedules()
@@ -70,6 +72,10 @@ async def call_op(api, kind, a):
     if kind == 6:
         days = [DAYS[i] for i in a[2]]
         form = {"set": set, "list": list, "tuple": tuple, "frozenset": frozenset}[a[3]]
+        k = (len(a[0]) + len(a[1]) + len(days)) % 4              # the same call in several spellings (positional, keywords in either order)
+        if k == 1: return await api.create_schedule(start_time=a[0], end_time=a[1], days=form(days))
+        if k == 2: return await api.create_schedule(days=form(days), end_time=a[1], start_time=a[0])
+        if k == 3: return await api.create_schedule(a[0], days=form(days), end_time=a[1])
         return await api.create_schedule(a[0], a[1], form(days))
     if kind == 7: return await api.stop()
     if kind == 8: return await api.set_position(a[0])
@@ -333,7 +339,7 @@ def gen_irset(rnd, long_codes=False):
                 cands = [mc] + [f"{mc}{t}" for t in temps] + [f"{mc}{t}_f{f}" for t in temps for f in range(4)] + \
                         [f"{mc}{t}_f{f}_d1" for t in temps for f in range(4)]
             keys += [pre + k for k in cands if rnd.random() < dens]
-    if not toggle and rnd.random() < 0.9: keys.append("off")
+    if (not toggle and rnd.random() < 0.9) or (toggle and rnd.random() < 0.35): keys.append("off")       # a toggle set may list an "off" code too
     if rnd.random() < 0.7: keys += ["FUN_d0", "FUN_d1"][:rnd.randrange(1, 3)]
     if toggle and rnd.random() < 0.3: keys.append("on_")
     rnd.shuffle(keys)
